@@ -8,14 +8,25 @@ OBLIGATIONS = []
 # rewrite rules except local macro expansion R5 and free variables -> parameters R7) and compiled by rustc as
 # methods under cfg(kani) in the per-run overlay, so that Kani can check a bounded twin of an arm's contract on
 # the REAL arm text whatever constructs it uses.
+_BIN = [("Add", "add"), ("Subtract", "sub"), ("Divide", "div"), ("Multiply", "mul"), ("Gt", "gt"), ("Gte", "gte"), ("Lt", "lt"), ("Lte", "lte"),
+        ("Eq", "eq"), ("Neq", "neq"), ("Modulo", "rem"), ("And", "and"), ("Or", "or")]
+_FUSED = [("GtLocalConst", "gt"), ("GteLocalConst", "gte"), ("LtLocalConst", "lt"), ("LteLocalConst", "lte"), ("EqLocalConst", "eq"), ("NeqLocalConst", "neq"),
+          ("AddLocalConst", "add"), ("SubtractLocalConst", "sub"), ("MultiplyLocalConst", "mul"), ("DivideLocalConst", "div"), ("ModuloLocalConst", "rem")]
+_S0 = "(&mut self) -> Result<(), Error>"
+_SG = "(&mut self, gc: &mut GC) -> Result<(), Error>"
+_SC = "(&mut self, constants: &Vec<Object>) -> Result<(), Error>"
+_SCG = "(&mut self, constants: &Vec<Object>, gc: &mut GC) -> Result<(), Error>"
+_SCGF = "(&mut self, constants: &Vec<Object>, gc: &mut GC, final_result: Object) -> Result<(), Error>"
+def _tw(op, sig, tail="Ok(())", rules=()):
+    return dict(name="verif_arm_" + op.lower(), file="vm.rs", fn="run_code", impl="VM", arm="OpCode::" + op, sig=sig, tail=tail, rules=list(rules))
 TWINS = {
-    "vm": [
-        dict(name="verif_arm_call", file="vm.rs", fn="run_code", impl="VM", arm="OpCode::Call", sig="(&mut self) -> Result<(), Error>", tail="Ok(())"),
-        dict(name="verif_arm_return_value", file="vm.rs", fn="run_code", impl="VM", arm="OpCode::ReturnValue",
-             sig="(&mut self, constants: &Vec<Object>, gc: &mut GC, final_result: Object) -> Result<(), Error>", tail="Ok(())"),
-        dict(name="verif_arm_return", file="vm.rs", fn="run_code", impl="VM", arm="OpCode::Return",
-             sig="(&mut self, constants: &Vec<Object>, gc: &mut GC, final_result: Object) -> Result<(), Error>", tail="Ok(())"),
-    ],
+    "vm": [_tw("Call", _S0), _tw("ReturnValue", _SCGF), _tw("Return", _SCGF)]
+          + [_tw(o, _SG) for o, _ in _BIN] + [_tw(o, _SCG) for o, _ in _FUSED]
+          + [_tw("Const", _SC), _tw("SetGlobal", _S0), _tw("GetGlobal", _S0), _tw("SetLocal", _S0), _tw("GetLocal", _S0), _tw("Jump", _S0),
+             _tw("JumpIfFalse", _S0), _tw("Pop", "(&mut self, final_result: &mut Object) -> Result<(), Error>", rules=["R7"]),
+             _tw("Null", _S0), _tw("True", _S0), _tw("False", _S0), _tw("Not", _S0), _tw("Negate", _SG), _tw("CallBuiltin", _SG), _tw("Array", _SG),
+             _tw("IndexGet", _SG), _tw("IndexSet", _S0),
+             _tw("Halt", "(&mut self, gc: &mut GC, final_result: Object) -> Result<Object, Error>", tail="")],
 }
 
 
@@ -250,6 +261,34 @@ V("O17.1", ["C17"], "c17_session", expect_verified=2, functions=["Compiler::comp
   desc="after compile_ast the compiler's code buffer is empty on Ok AND on Err; on Err no remembered last instruction, no open loop context, symbol table reset to the global scope; on Ok the code handed out ends with Halt and carries all constants")
 V("O17.2", ["C17", "C03"], "c17_vm", expect_verified=2, functions=["VM::run", "VM::run_code (prologue)"],
   desc="VM::run puts the same collector back on every exit path (heap values held by globals stay managed); every run starts from an empty operand stack, one call frame, ip = bp = 0, the new code; globals kept")
+
+# ---------------------------------------------------------------------------------------------
+# bounded twins of the dispatch arms (real arm text compiled as methods; callees replaced by recorders)
+# ---------------------------------------------------------------------------------------------
+for _o, _m in _BIN:
+    K("O02.tw." + _o.lower(), ["C02", "C10", "C06"], "vm", "c02_twin_" + _o.lower(), level="bounded", bound="stack of 3 symbolic immediates", needs_fmt_stub=True,
+      functions=["VM::run_code arm " + _o], desc="twin of the generic operator arm: calls Object::%s(lower, top), replaces both by the result, slot below untouched, ip unchanged" % _m)
+for _o, _m in _FUSED:
+    K("O10.tw." + _o.lower(), ["C10", "C02"], "vm", "c10_twin_" + _o.lower(), level="bounded", bound="stack of 3, 2 constants, local / constant index in 0..=1", needs_fmt_stub=True,
+      functions=["VM::run_code arm " + _o], desc="twin of the fused arm: calls Object::%s(local, constant) in that order, pushes the result, ip += 4" % _m)
+for _a in ("const", "getlocal", "setlocal", "getglobal", "setglobal"):
+    K("O02.tw." + _a, ["C02", "C10"], "vm", "c02_twin_" + _a, level="bounded", bound="stack of 3, 2 constants, 1-2 globals, slot index 0..=1", needs_fmt_stub=True,
+      functions=["VM::run_code arm " + _a], desc="loads / stores address exactly the slot named by the little-endian operand; SetGlobal extends the globals; ip += 2")
+K("O02.tw.gg", ["C02", "C05"], "vm", "c02_twin_getglobal_unset", level="bounded", bound="0..=2 globals, index >= count", needs_fmt_stub=True,
+  functions=["VM::run_code arm GetGlobal"], desc="reading an unset global slot is a ReferenceError, never an out-of-bounds access")
+K("O11.tw", ["C11", "C02"], "vm", "c11_twin_control", level="bounded", bound="stack of 3; every 16-bit jump operand", needs_fmt_stub=True,
+  functions=["VM::run_code arms Jump, JumpIfFalse, Pop, Null, True, False, Not"], desc="jumps go exactly to the operand; non-bool condition is a TypeError; ja falls through; Pop feeds the last-statement value")
+K("O06.tw.neg", ["C06", "C05"], "vm", "c06_twin_negate", needs_fmt_stub=True, functions=["VM::run_code arm Negate"],
+  desc="for ALL integers: exact negation, error for MIN_INT (result out of range); non-numbers TypeError (float operand: Ok(Float) by Verus)")
+for _n in range(3):
+  K("O14.tw.%d" % _n, ["C14", "C02"], "vm", "c14_twin_callbuiltin_%d" % _n, level="bounded", bound="stack of 3, argc %d, every builtin byte" % _n, needs_fmt_stub=True,
+  functions=["VM::run_code arm CallBuiltin"], desc="pops exactly argc values, hands them to the builtin named by the byte in call order, pushes its answer; ip += 2")
+K("O13.tw.idx", ["C13", "C02"], "vm", "c13_twin_index_arms", level="bounded", bound="stack of 3", needs_fmt_stub=True,
+  functions=["VM::run_code arms IndexGet, IndexSet"], desc="target below index (below value) handed to index_get / index_set in that order")
+K("O13.tw.arr", ["C13", "C02"], "vm", "c13_twin_array_arm", level="bounded", bound="stack of 3, length 2", needs_fmt_stub=True,
+  functions=["VM::run_code arm Array"], desc="pops exactly `length` values, array elements in source order")
+K("O03.tw.halt", ["C03", "C02"], "vm", "c03_twin_halt", level="bounded", bound="stack of 3", needs_fmt_stub=True,
+  functions=["VM::run_code arm Halt"], desc="the result is untraced and handed out")
 
 # ---------------------------------------------------------------------------------------------
 # per-property information for the evidence files
